@@ -92,7 +92,13 @@ FwFracsOK(c) == FracOK(c.fwPad) /\ FracOK(c.fwBlk)
 \* the domain, by slices
 NoDistC == [fam |-> "none", ps |-> <<>>]
 Base == [padFrac |-> "half", blockFrac |-> "+0", fwPad |-> "+0", fwBlk |-> "one", nstates |-> 2,
-         vec |-> <<[to |-> "s1", p |-> "half"]>>, dist |-> NoDistC, dpos |-> "none"]
+         vec |-> <<[to |-> "s1", p |-> "half"]>>, dist |-> NoDistC, dpos |-> "none", ctx |-> "bare"]
+\* ctx: what else the machine carries and where the judged state sits. The judgement does not depend
+\* on it (validity is compositional); the harness realises it: "bare" = nothing else, "full" = every
+\* other optional field present and valid (both counters, limits, flags, a vector on every other
+\* event, an action in the other state) and the judged vector on a rotating event, "last" = the
+\* judged state is the last one
+Ctx == {"bare", "full", "last"}
 
 FracCases ==
   {[Base EXCEPT !.padFrac = a, !.blockFrac = b, !.nstates = n] : a \in FracVals, b \in FracVals, n \in {0, 1, 2}}
@@ -105,7 +111,8 @@ Vec2 == {<<[to |-> t1, p |-> q1], [to |-> t2, p |-> q2]>> :
 Vec3 == {<<[to |-> "s0", p |-> q1], [to |-> t2, p |-> q2], [to |-> "END", p |-> q3]>> :
            t2 \in {"s1", "s0", "SIGNAL"}, q1 \in {"quarter", "half", "NaN"}, q2 \in {"quarter", "half", "half+", "sub"},
            q3 \in {"quarter", "half", "1-ulp", "NaN"}}
-VecCases(V) == {[Base EXCEPT !.vec = v, !.nstates = n] : v \in V, n \in {1, 2}} \cup {[Base EXCEPT !.vec = <<>>]}
+VecCases(V) == {[Base EXCEPT !.vec = v, !.nstates = n, !.ctx = c] : v \in V, n \in {1, 2}, c \in {"bare", "full"}}
+               \cup {[Base EXCEPT !.vec = <<>>]}
 
 P2(fam, A, B) == {[fam |-> fam, ps |-> <<a, b>>] : a \in A, b \in B}
 DistsFull ==
@@ -130,6 +137,7 @@ DistsQuick ==
   \cup P2("Weibull", Corner, {"NaN", "half", "+0"}) \cup P2("Gamma", {"NaN", "half", "+0"}, Corner)
   \cup P2("Beta", Corner, {"NaN", "half", "neg"})
 DistCases(D, Pos_) == {[Base EXCEPT !.dist = d, !.dpos = q] : d \in D, q \in Pos_}
+DistCasesIn(D, Pos_, C) == {[Base EXCEPT !.dist = d, !.dpos = q, !.ctx = c] : d \in D, q \in Pos_, c \in C}
 
 Cases ==
   CASE Slice = "frac"       -> FracCases
@@ -137,8 +145,8 @@ Cases ==
     [] Slice = "vec2-quick" -> VecCases({v \in Vec2 : v[1].p \in {"quarter", "half", "1-ulp"} /\ v[2].p \in {"quarter", "half", "half+", "NaN", "+0", "-0", "sub"}})
     [] Slice = "vec2"       -> VecCases(Vec2 \cup Vec3)
     [] Slice = "dist-quick" -> DistCases(DistsQuick, {"pad.timeout"}) \cup
-                               DistCases({d \in DistsQuick : ~DistOK(d) /\ d.fam \in {"Uniform", "Poisson", "Binomial"}}, Positions)
-    [] Slice = "dist"       -> DistCases(DistsFull, {"pad.timeout", "ctrB"}) \cup DistCases(DistsQuick, Positions)
+                               DistCasesIn({d \in DistsQuick : ~DistOK(d) /\ d.fam \in {"Uniform", "Poisson", "Binomial"}}, Positions, Ctx)
+    [] Slice = "dist"       -> DistCases(DistsFull, {"pad.timeout", "ctrB"}) \cup DistCasesIn(DistsQuick, Positions, Ctx)
 
 VARIABLE case
 Init == case \in Cases
